@@ -32,6 +32,11 @@ type G struct {
 	Full bool
 	// MinElems forces at least that many elements in top-level arrays (wire locations where empty == absent).
 	MinElems int
+	// AltRot > 0 makes the choice of union alternatives systematic: the k-th union value drawn by this generator
+	// selects alternative (AltRot-1+k) mod n, so that a case list whose i-th case sets AltRot = i+1 exercises
+	// every alternative of every union. 0 = random.
+	AltRot  int
+	altSeen int
 }
 
 var strBody = []string{"plain", "", "a/b?c#d&e=f+g;h,i", "100% sure", "%41", "%2F%2f", " lead and trail ", "héllo wörld ✓ 𝄞", "line\nbreak\ttab", `quote"back\slash`, "<xml>&amp;</xml>", "null", "0", "日本語"}
@@ -293,8 +298,17 @@ func (g *G) Valid(t *spec.Type, v *spec.Val, loc Loc, depth int) any {
 		}
 		return o
 	case spec.Union:
-		alt := rt.Attrs[g.R.Intn(len(rt.Attrs))]
-		return map[string]any{"$union": alt.Name, "$value": g.Valid(alt.Type, alt.Val, Body, depth+1)}
+		idx := g.R.Intn(len(rt.Attrs))
+		if g.AltRot > 0 {
+			idx = (g.AltRot - 1 + g.altSeen) % len(rt.Attrs)
+			g.altSeen++
+		}
+		alt := rt.Attrs[idx]
+		uv := g.Valid(alt.Type, alt.Val, Body, depth+1)
+		if uv == nil {
+			uv = g.zero(alt.Type) // a union always holds a value
+		}
+		return map[string]any{"$union": alt.Name, "$value": uv}
 	}
 	return nil
 }
